@@ -57,11 +57,20 @@ def gen_cases(tier):
         rnd = lib.rng(f'C02pair{i}')
         a, b, meta = G.gen_pair(rnd)
         cases.append({'id': len(cases), 'kind': 'pair', 'tag': f'C02pair{i}', 'chain': [a, b], 'verify_from': 1,
-                      'detail': True, 'meta': meta, 'full': tier == 'thorough' and i % 5 == 0})
+                      'detail': True, 'meta': meta, 'full': tier == 'thorough' and i % 5 == 0,
+                      'session': i % 2 == 0})
     for k in range(n_sweeps):
         for j, (a, b, meta) in enumerate(G.gen_sweep(lib.rng(f'C02sweep{k}'))):
             cases.append({'id': len(cases), 'kind': 'sweep', 'tag': f'C02sweep{k}/{j}', 'chain': [a, b], 'verify_from': 1,
                           'detail': True, 'meta': meta})
+    # deep change in a large type (added after seed C02/4): the ONLY difference between A and B sits
+    # several child-collection levels below a type with many pointers, so that the type's similarity
+    # score is within rounding distance of 1.0 - it must still be diffed as changed
+    rnd = lib.rng('C02deep')
+    for i in range(6 if tier == 'quick' else 30):
+        a, b, what = deep_change_pair(rnd, i)
+        cases.append({'id': len(cases), 'kind': 'deep', 'tag': f'C02deep{i}', 'chain': [a, b], 'verify_from': 1,
+                      'detail': True, 'meta': {'ops': ['deep:' + what], 'feat': ['deep']}, 'session': i % 3 == 0})
     rnd = lib.rng('C02malformed')
     for i in range(n_mal):
         a, _, _ = G.gen_pair(lib.rng(f'C02mal{i}'))
@@ -69,6 +78,28 @@ def gen_cases(tier):
         cases.append({'id': len(cases), 'kind': 'malformed', 'tag': tag, 'chain': [a, bad], 'verify_from': 1,
                       'detail': False, 'meta': {'ops': ['malformed:' + tag], 'feat': []}})
     return cases
+
+
+def deep_change_pair(rnd, i):
+    n = (12, 18, 26, 40, 14, 22)[i % 6] + rnd.randint(0, 3)
+    props = ' '.join(f'property p{k} -> {rnd.choice(("str", "int64", "bool", "float64"))};' for k in range(n))
+    kind = ('anno-on-constraint-on-linkprop', 'errmessage-on-linkprop-constraint', 'linkprop-default',
+            'anno-on-index', 'anno-on-linkprop', 'constraint-arg-on-linkprop')[i % 6]
+
+    def doc(v):
+        lp = {'anno-on-constraint-on-linkprop':
+              f"property w -> int64 {{ constraint max_value(100) {{ annotation description := '{v} limit'; }}; }};",
+              'errmessage-on-linkprop-constraint':
+              f"property w -> int64 {{ constraint max_value(100) {{ errmessage := '{v} message'; }}; }};",
+              'linkprop-default': f"property w -> int64 {{ default := {1 if v == 'old' else 2}; }};",
+              'anno-on-linkprop': f"property w -> int64 {{ annotation title := '{v} title'; }};",
+              'constraint-arg-on-linkprop':
+              f"property w -> int64 {{ constraint max_value({100 if v == 'old' else 101}); }};",
+              }.get(kind, 'property w -> int64;')
+        idx = f"index on (.p0) {{ annotation description := '{v} index'; }};" if kind == 'anno-on-index' else ''
+        return ('module default { type Big { ' + props + ' multi link items -> Big { ' + lp + ' }; ' + idx +
+                ' }; type Other { link b -> Big; }; }')
+    return doc('old'), doc('new'), kind
 
 
 def is_empty_sdl(text):
@@ -100,18 +131,26 @@ def judge(case, res, known):
             continue
         mon = st.get('mon') or {}
         fids = {}
-        for form in ('commit', 'text', 'tree'):
+        for form in ('commit', 'text', 'tree', 'session', 'interactive'):
             v = mon.get(form, 'eq')
             if v == 'eq':
                 continue
-            fid = G.classify_monitor(form, v, mon, a_text, b_text, st.get('script'))
+            fid = G.classify_monitor(form if form in ('commit', 'text', 'tree') else 'commit', v, mon, a_text, b_text,
+                                     st.get('script'))
+            if form == 'interactive' and not (isinstance(v, dict) and isinstance(mon.get('commit'), dict)
+                                              and v.get('dump_diff') == mon['commit'].get('dump_diff')):
+                fid = None      # an accepted interactive session that differs from the target in its OWN way
             if fid is None and form != 'commit' and isinstance(v, dict) and isinstance(mon.get('commit'), dict) \
                     and v.get('dump_diff') == mon['commit'].get('dump_diff'):
                 fid = fids.get('commit')       # the same difference as the committed schema shows
             fids[form] = fid
             desc = {'commit': 'COMMIT MIGRATION (CREATE MIGRATION {computed DDL})',
                     'tree': 'the command tree of delta_schemas applied directly',
-                    'text': "the migration's DDL text replayed as text"}[form]
+                    'text': "the migration's DDL text replayed as text",
+                    'session': 'START / POPULATE / COMMIT MIGRATION through the server compiler (server/compiler/ddl.py)',
+                    'interactive': 'an interactive session (DESCRIBE CURRENT MIGRATION AS JSON, some proposals '
+                                   'rejected with ALTER CURRENT MIGRATION REJECT PROPOSED, POPULATE, COMMIT) whose '
+                                   'COMMIT MIGRATION was accepted'}[form]
             if isinstance(v, dict) and 'rejected' in v:
                 what = f'accepted migration, but {desc} is rejected: {v["rejected"]["type"]}: {v["rejected"]["msg"][:120]}'
             else:
@@ -135,7 +174,7 @@ def brief(v):
 
 
 def slim(case):
-    return {k: case[k] for k in ('chain', 'verify_from', 'kind', 'tag', 'direct', 'to_empty') if k in case}
+    return {k: case[k] for k in ('chain', 'verify_from', 'kind', 'tag', 'direct', 'to_empty', 'session') if k in case}
 
 
 def shrink_pair(case, fails, deadline):
@@ -445,6 +484,13 @@ def fill_evidence(rep, tier, cases, results, dlines, d_impl, d_mism, plines, p_m
                 ncmds[min(st.get('ncmds', 0) // 10 * 10, 100)] += 1
                 sizes[min(st.get('nobjs', 0) // 20 * 20, 200)] += 1
                 for k, v in (st.get('mon') or {}).items():
+                    if k in ('session_refused', 'interactive_refused'):
+                        forms[k] += 1
+                        continue
+                    if k == 'interactive_rejections':
+                        forms['interactive:proposals_rejected'] += v
+                        forms['interactive:accepted_after_rejections'] += 1 if v else 0
+                        continue
                     forms[k + (':eq' if v == 'eq' else ':DIFF')] += 1
                     if k == 'tree' and v != 'eq':
                         for it in (G._diff_items(v) or {('tree', 'rejected')}):
